@@ -52,7 +52,7 @@ merge = {
                   (r"std::distance\(buffer\.begin\(\), it\)", "((ptrdiff_t)it)", 1), (r"std::distance\(buffer\.end\(\), it\)", "((ptrdiff_t)it - (ptrdiff_t)buffer->size)", 1),
                   (r"scale_function\(\)\.normalizer\(", "sf_normalizer(", 1), (r"scale_function\(\)\.max\(", "sf_max(", 2),
                   (r"if \(reverse_merge_\) std::reverse\(centroids_\.begin\(\), centroids_\.end\(\)\);", "if (self->reverse_merge_) reverse_centroids(self->centroids_, self->centroids_size);", 1),
-                  (r"centroids_\.front\(\)\.get_mean\(\)", "self->centroids_[0].mean_", 1), (r"centroids_\.back\(\)\.get_mean\(\)", BACK + ".mean_", 1),
+                  (r"centroids_\.front\(\)\.get_mean\(\)", "self->centroids_[0].mean_", "any"), (r"centroids_\.back\(\)\.get_mean\(\)", BACK + ".mean_", "any"),
                   (r"buffer\.front\(\)\.get_mean\(\)", "buffer->data[0].mean_", "any"), (r"buffer\.back\(\)\.get_mean\(\)", "buffer->data[buffer->size - 1].mean_", "any"),
                   (r"buffer_\.clear\(\);", "self->buffer_size = 0;", 1)],
     "rules": [(r"std::min\(", "VMIN(", "any"), (r"std::max\(", "VMAX(", "any")] + UF,
